@@ -76,7 +76,7 @@ ASSUMPTIONS = [
     "square (3n,3n) C-contiguous float Hessians; blockwise_expand only for 2-D arrays whose shape the block shape divides, aslist=False (the call align_hessian makes)",
     "vector / vector-gradient covariance is demanded for mirror=False only (as the property says); with mirror=True those two methods are only tied to the model",
     "reverse=True coordinate transform: modelled, tied, proved an isometry; the property makes no covariance claim about it (in call sequences it is only required to be a function of its input values and to leave arguments and earlier results alone)",
-    "argument representations explored: float64 ndarrays that are C-ordered, Fortran-ordered, strided views, negative-stride views, read-only, or C-contiguous windows of a larger buffer; (3,3n) vector derivatives also as three separate component arrays; per-atom arrays of int / float / str dtype in the 1-D layouts; recipe fields given as C / Fortran / strided arrays, flat (9,) or (1,3) shapes, lists, int32/int64 atom maps. Not generated: float32 / integer / non-native-byte-order geometries, nested lists where the code calls ndarray methods (align_vector, align_atoms, align_hessian), Hessians that are not C-contiguous (blockwise_expand asserts)",
+    "argument representations explored: float64 ndarrays that are C-ordered, Fortran-ordered, strided views, negative-stride views, read-only, or C-contiguous windows of a larger buffer; (3,3n) vector derivatives also as three separate component arrays; per-atom arrays of int / float / str dtype in the 1-D layouts and with one row per atom ((n,3), (n,2), (n,2,2), (n,1) str, Fortran order); recipe fields given as C / Fortran / strided arrays, flat (9,) or (1,3) shapes, lists, int32/int64 atom maps. Not generated: float32 / integer / non-native-byte-order geometries, nested lists where the code calls ndarray methods (align_vector, align_atoms, align_hessian), Hessians that are not C-contiguous (blockwise_expand asserts)",
     "call sequences are single-threaded, one process, at most 3 recipes x 5 systems x ~100 calls; state that survives longer than one sequence is exercised only in so far as later sequences (same process) are judged by the same oracle",
     "align_system / align_mini_system are tied componentwise to alignCoords / alignAtoms of the model (no separate model function)",
 ]
@@ -456,6 +456,20 @@ def oracle_mill(out: Outcome, s, mill, x, E, fld, res):
     lab2 = mill.align_atoms(labels)
     if list(lab2) != [f"L{p}" for p in perm]:
         V("oracle:atoms_same_map", list(map(str, lab2)), [f"L{p}" for p in perm], "align_atoms on a string array does not follow atommap")
+    # per-atom arrays with one ROW per atom (per-atom vectors / tag pairs / the geometry itself / (n,2,2) blocks): rows follow
+    # the atom map exactly like the coordinates do; also through align_system / align_mini_system's per-atom slots
+    for tag2, arr2 in (("(n,3) float", np.arange(3 * n, dtype=float).reshape(n, 3) * 0.5 + 1.0), ("(n,2) int", np.arange(2 * n).reshape(n, 2) + 7),
+                       ("(n,2,2) float", np.arange(4 * n, dtype=float).reshape(n, 2, 2)), ("(n,1) str", np.array([[f"T{i}"] for i in range(n)])),
+                       ("(n,3) float, Fortran order", np.asfortranarray(np.arange(3 * n, dtype=float).reshape(n, 3) - 2.0))):
+        try:
+            got2 = np.asarray(mill.align_atoms(arr2))
+            exp2 = np.asarray(arr2)[perm]
+            if got2.shape != exp2.shape or not np.array_equal(got2, exp2):
+                V("oracle:atoms_same_map", f"shape {list(got2.shape)}", f"shape {list(exp2.shape)} = rows a[atommap[i]]", f"align_atoms on a {tag2} per-atom array does not permute its rows by atommap")
+                break
+        except Exception as e:  # noqa
+            V("oracle:atoms_same_map", f"{type(e).__name__}: {e}"[:200], "rows a[atommap[i]]", f"align_atoms raised on a {tag2} per-atom array")
+            break
     D0 = np.sqrt(((x[:, None] - x[None]) ** 2).sum(-1))
     D1 = np.sqrt(((xa[:, None] - xa[None]) ** 2).sum(-1))
     ok, err = close(D1, D0[np.ix_(perm, perm)])
